@@ -79,17 +79,26 @@ class TyEnv:
     def __init__(self, predicates=None):
         # map canonical alias string -> type json it equals
         self.eq = {}
+        self.param_eq = {}  # type parameter name -> alias type it is required to equal
         self.side = []  # side facts (rel, Poly)
         for p in predicates or []:
             if p.get("k") == "proj":
-                alias = {"k": "alias", "def": p["def"], "args": p["args"]}
-                self.eq[tstr(alias)] = p["term"]
+                alias = {"k": "alias", "kind": "Projection", "def": p["def"], "args": p["args"]}
+                if p["term"].get("k") == "param":
+                    self.param_eq[p["term"]["n"]] = alias
+                else:
+                    self.eq[tstr(alias)] = p["term"]
 
     # ---- type-level lengths ----------------------------------------------------------------
     def length(self, t, _depth=0):
         """Poly for <t as Unsigned>::USIZE."""
         k = t.get("k")
         if k == "param":
+            if t["n"] in self.param_eq and _depth < 4:
+                al = self.param_eq[t["n"]]
+                # only length-defining projections are followed (Const<U>: IntoArrayLength<ArrayLength = N>)
+                if al["def"] in ("IntoArrayLength::ArrayLength", "typenum::ToUInt::Output"):
+                    return self.length(al, _depth + 1)
             return Poly.atom(("L", t["n"]))
         if k == "cparam":
             return Poly.atom(("C", t["n"]))
